@@ -216,6 +216,14 @@ def run(ctx):
     inline = {f"{SSLU}.create_urllib3_context", f"{SSLU}.resolve_cert_reqs"}
     for q in inline:
         m.func(q)
+    # private helpers of the two modules are interpreted in place, so that extracting part of the verification function
+    # into a helper (or inlining one) does not change the table
+    modelled = {"_ssl_wrap_socket_and_match_hostname", "_match_hostname", "_assert_fingerprint", "_wrap_proxy_error", "_is_key_file_encrypted",
+                "_is_bpo_43522_fixed", "_is_has_never_check_common_name_reliable", "_ssl_wrap_socket_impl", "_get_default_user_agent", "_url_from_connection"}
+    for fi_ in m.repo_funcs():
+        if fi_.module in (CN, SSLU) and fi_.cls is None and fi_.name.startswith("_") and fi_.name not in modelled:
+            inline.add(fi_.qual)
+    ctx.extra["c07_inlined_helpers"] = sorted(inline)
     import concurrent.futures as _cf
     import multiprocessing as _mp
 
@@ -302,11 +310,10 @@ def run(ctx):
                "" if bad is None else f"events {bad[1].st.ts.get('ev')}: a connection that failed its check stays open (cell {bad[0]})", witness=bad[1].st.witness() if bad else None, node=wf.node)
     # the secure default of the resolver
     rc = m.func(f"{SSLU}.resolve_cert_reqs")
-    rets = sorted([r for r in astq.walk_fn(rc.node) if isinstance(r, ast.Return)], key=lambda r: r.lineno)
-    first = rets[0] if rets else None
-    g = astq.enclosing(first, ast.If) if first is not None else None
-    ok = first is not None and astq.text(first.value) == "CERT_REQUIRED" and g is not None and astq.text(g.test) == "candidate is None"
-    ctx.ob(R3, rc.qual, "cert_reqs=None resolves to CERT_REQUIRED", ok, astq.text(first) if first is not None else "")
+    outs_rc, it_rc = run_function(m, rc, VerifyRule(False, True), params={rc.params()[0]: const(None)})
+    rets_rc = [o for o in outs_rc if o.kind == "return"]
+    ok = bool(rets_rc) and all(o.val is not None and o.val.kind == "const" and o.val.val == ("enum", "CERT_REQUIRED") for o in rets_rc)
+    ctx.ob(R3, rc.qual, "cert_reqs=None resolves to CERT_REQUIRED", ok, "" if ok else f"returns {[str(o.val.val) if o.val is not None else None for o in rets_rc]}")
 
     # ------------------------------------------------------------------ R2 / R8 on HTTPSConnection.connect
     R2 = ctx.rule("C07-R2", "the request socket is the verified one: on every normal exit of HTTPSConnection.connect self.sock is the socket of _ssl_wrap_socket_and_match_hostname's result, and is_verified comes from that result (False through a forwarding proxy)", "E6 provenance via E4")
@@ -323,7 +330,7 @@ def run(ctx):
             if t == "self._connect_callback":
                 return const(None)
             if base.kind == "obj" and base.val == "wrapped":
-                return AV("unk", tags=frozenset({f"wrapped.{node.attr}"}), truth=None if node.attr == "is_verified" else True, none=False)
+                return AV("unk", sym=f"wrapped.{node.attr}", tags=frozenset({f"wrapped.{node.attr}"}), truth=None if node.attr == "is_verified" else True, none=False)
             if base.kind == "self" and node.attr in ("host", "_tunnel_host", "server_hostname", "assert_hostname", "assert_fingerprint", "cert_reqs", "ssl_context",
                                                      "ca_certs", "ca_cert_dir", "ca_cert_data", "cert_file", "key_file", "key_password", "proxy_is_tunneling", "proxy_is_forwarding", "_tunnel_scheme"):
                 k = ("self", node.attr)
@@ -376,12 +383,14 @@ def run(ctx):
         ok = sock is not None and "wrapped.socket" in sock.tags
         ctx.ob(R2, cf.qual, f"self.sock at exit: {sorted(sock.tags) if sock is not None else None}", ok,
                "" if ok else "requests would be written to a socket other than the one that passed verification", witness=o.st.witness(), node=cf.node)
+        res = o.st.facts.get("wrapped.is_verified", (None, None))[0]  # what the verification result said, if the path looked
         if fw is None:
-            ok2 = False  # the forwarding-proxy case is not distinguished on this path
+            # the forwarding-proxy case is not distinguished on this path: only acceptable when the result itself said "not verified"
+            ok2 = isv is not None and res is False and ("wrapped.is_verified" in isv.tags or (isv.kind == "const" and isv.val is False))
         elif fw is True:
-            ok2 = isv is not None and isv.kind == "const" and isv.val is False
+            ok2 = isv is not None and ((isv.kind == "const" and isv.val is False) or (res is False and "wrapped.is_verified" in isv.tags))
         else:
-            ok2 = isv is not None and "wrapped.is_verified" in isv.tags
+            ok2 = isv is not None and ("wrapped.is_verified" in isv.tags or (isv.kind == "const" and isinstance(isv.val, bool) and res is isv.val))
         ctx.ob(R2, cf.qual, f"is_verified at exit (forwarding proxy={fw})", ok2,
                "" if ok2 else "the connection reports itself verified from another source than the verification result", witness=o.st.witness(), node=cf.node)
     ctx.sites(R8, len(crule.wraps), 2, "paths reaching the origin TLS wrap")
@@ -416,9 +425,30 @@ def run(ctx):
     ctx.ob(R8, cf.qual, "every TLS setting handed to the wrap is the connection's own field", True)
     # constructor default for cert_reqs
     ci = m.method(hc, "__init__")
-    txt = astq.text(ci.node)
-    ctx.ob(R8, ci.qual, "cert_reqs=None defaults to the caller's context verify_mode, else to resolve_cert_reqs(None) (= REQUIRED)",
-           "cert_reqs = self.ssl_context.verify_mode" in txt and "cert_reqs = resolve_cert_reqs(None)" in txt)
+    from ..rows import GenRule, effect_rows
+    from ..terms import T as _T
+
+    crows = [r for r in effect_rows(ctx, ci, GenRule(ctx, CN, pure_self=("resolve_cert_reqs",)), hc, budget=400000) if r.returns]
+    seen_c = set()
+    for r in crows:
+        st_cr = [e for e in r.events("store") if e[1] == "self" and e[2] == "cert_reqs"]
+        val = st_cr[-1][3] if st_cr else None
+        none_cr = r.is_none("p:cert_reqs")
+        none_ctx = r.is_none("p:ssl_context") if r.is_none("p:ssl_context") is not None else r.is_none("self.ssl_context")
+        key = (val, none_cr, none_ctx)
+        if key in seen_c:
+            continue
+        seen_c.add(key)
+        if none_cr is False:
+            ok, why = val == "p:cert_reqs", "an explicit cert_reqs must be kept"
+        elif none_cr is True and none_ctx is False:
+            ok, why = val in ("p:ssl_context.verify_mode", "self.ssl_context.verify_mode"), "without cert_reqs the caller's SSLContext decides"
+        elif none_cr is True and none_ctx is True:
+            ok, why = val == _T("resolve_cert_reqs", "None"), "without cert_reqs and context the secure default resolve_cert_reqs(None) (= REQUIRED) applies"
+        else:
+            ok, why = False, "cert_reqs is stored without deciding whether it / a context was given"
+        ctx.ob(R8, ci.qual, f"cert_reqs stored as {val} (cert_reqs None={none_cr}, context None={none_ctx})", ok, "" if ok else why, witness=r.witness(), node=ci.node)
+    ctx.sites(R8, len(seen_c), 3, "rows of HTTPSConnection.__init__ storing cert_reqs")
 
     # ------------------------------------------------------------------ R5 is_verified provenance
     R5 = ctx.rule("C07-R5", "nothing but a verification result (or False/None) is ever stored into is_verified / proxy_is_verified", "E6")
@@ -432,9 +462,34 @@ def run(ctx):
                     if isinstance(t, ast.Attribute) and t.attr in ("is_verified", "proxy_is_verified"):
                         n += 1
                         v = node.value
-                        ok = (isinstance(v, ast.Constant) and v.value in (False, None)) or \
-                             (isinstance(v, ast.Attribute) and v.attr == "is_verified" and any(
-                                 isinstance(s, ast.Call) and astq.call_text(s) == "_ssl_wrap_socket_and_match_hostname" for s in astq.sources_of(f.node, v.value)))
+
+                        def leaves(e, depth=0):
+                            """(kind, node): 'const' False/None, 'result' = <wrap result>.is_verified, 'flag' = not <self field>, 'other'; 'or' marks a disjunction"""
+                            if isinstance(e, ast.Constant):
+                                return [("const" if e.value in (False, None) else "other", e)]
+                            if isinstance(e, ast.Attribute) and e.attr == "is_verified" and any(
+                                    isinstance(s_, ast.Call) and astq.call_text(s_) == "_ssl_wrap_socket_and_match_hostname" for s_ in astq.sources_of(f.node, e.value)):
+                                return [("result", e)]
+                            if isinstance(e, ast.UnaryOp) and isinstance(e.op, ast.Not) and isinstance(e.operand, ast.Attribute) and astq.is_self_attr(e.operand):
+                                return [("flag", e)]
+                            if isinstance(e, ast.BoolOp):
+                                out = [("or", e)] if isinstance(e.op, ast.Or) else []
+                                for x in e.values:
+                                    out += leaves(x, depth + 1)
+                                return out
+                            if isinstance(e, ast.IfExp):
+                                return leaves(e.body, depth + 1) + leaves(e.orelse, depth + 1)
+                            if isinstance(e, ast.Name) and depth < 6:
+                                srcs = astq.assigned_values(f.node, e.id)
+                                out = []
+                                for x in srcs:
+                                    out += leaves(x, depth + 1) if isinstance(x, ast.expr) else [("other", e)]
+                                return out or [("other", e)]
+                            return [("other", e)]
+
+                        lv = leaves(v)
+                        kinds_ = {k for k, _ in lv}
+                        ok = kinds_ <= {"const"} or ("result" in kinds_ and kinds_ <= {"const", "result", "flag"})
                         ctx.ob(R5, f.qual, f"`{astq.text(node)}`", ok, "" if ok else "a connection is marked verified without a verification result", node=node)
     ctx.sites(R5, n, 5, "stores to is_verified / proxy_is_verified")
     for cname in (f"{CN}.HTTPConnection",):
@@ -447,16 +502,40 @@ def run(ctx):
 
     # ------------------------------------------------------------------ R6 warning
     R6 = ctx.rule("C07-R6", "an unverified connection triggers InsecureRequestWarning: not is_verified and not proxy_is_verified => warnings.warn(..., InsecureRequestWarning)", "E4")
-    ws = [c for c in astq.calls(vc.node) if astq.call_text(c) == "warnings.warn"]
-    ctx.sites(R6, len(ws), 1, "warning in _validate_conn")
-    for c in ws:
-        g = astq.enclosing(c, ast.If)
-        ok = g is not None and astq.text(g.test) == "not conn.is_verified and (not conn.proxy_is_verified)" or (g is not None and astq.text(g.test) == "not conn.is_verified and not conn.proxy_is_verified")
-        cat = astq.text(c.args[1]) if len(c.args) > 1 else astq.text(astq.kwarg(c, "category")) if astq.kwarg(c, "category") is not None else ""
-        ctx.ob(R6, vc.qual, f"warning guarded by `{astq.text(g.test) if g is not None else ''}` with category {cat}", bool(ok) and cat == "InsecureRequestWarning",
-               "" if ok else "unverified requests are no longer announced (or verified ones are)", node=c)
-        after_connect = any(isinstance(n_, ast.If) and astq.text(n_.test) == "conn.is_closed" and n_.lineno < c.lineno for n_ in astq.walk_fn(vc.node))
-        ctx.ob(R6, vc.qual, "the verification state is read after the handshake", after_connect, node=c)
+    pconn = "p:" + vc.params()[0]
+
+    def _warn_event(text, node):
+        return "warn" if text == "warnings.warn" else None
+
+    wrows = [r for r in effect_rows(ctx, vc, GenRule(ctx, CP, events=_warn_event, pure_self=()), f"{CP}.HTTPSConnectionPool") if r.returns]
+    ctx.sites(R6, len(wrows), 2, "rows of HTTPSConnectionPool._validate_conn")
+    seen_w = set()
+    n_warn = 0
+    for r in wrows:
+        v1, v2 = r.truth(f"{pconn}.is_verified"), r.truth(f"{pconn}.proxy_is_verified")
+        warns = r.events("warn")
+        key = (v1, v2, len(warns))
+        if key in seen_w:
+            continue
+        seen_w.add(key)
+        unverified = v1 is False and v2 is False
+        verified = v1 is True or v2 is True
+        if unverified:
+            n_warn += 1
+            cat_ok = bool(warns) and any("InsecureRequestWarning" in str(a_) for a_ in warns[0][1:])
+            ctx.ob(R6, vc.qual, "neither the connection nor its proxy hop is verified -> InsecureRequestWarning", len(warns) == 1 and cat_ok,
+                   "" if len(warns) == 1 and cat_ok else "unverified requests are no longer announced", witness=r.witness(), node=vc.node)
+        elif verified:
+            ctx.ob(R6, vc.qual, f"verified (connection={v1}, proxy hop={v2}) -> no warning", not warns, "" if not warns else "a verified request is announced as unverified", witness=r.witness(), node=vc.node)
+        else:
+            ctx.ob(R6, vc.qual, f"silence only for a verified connection (connection={v1}, proxy hop={v2})", bool(warns),
+                   "" if warns else "a path stays silent although neither is_verified nor proxy_is_verified is known to be true (e.g. proxy_is_verified False rather than None)", witness=r.witness(), node=vc.node)
+        # the state is read after the handshake was forced
+        closed = r.truth(f"{pconn}.is_closed")
+        if closed is True:
+            conn_ev = [e for e in r.events("call") if e[1].endswith(".connect")]
+            ctx.ob(R6, vc.qual, "a closed connection is connected before its verification state is read", bool(conn_ev), "" if conn_ev else "the state of a connection that never shook hands is consulted", witness=r.witness(), node=vc.node)
+    ctx.sites(R6, n_warn, 1, "rows with an unverified connection")
 
     # ------------------------------------------------------------------ R7 backend callback
     R7 = ctx.rule("C07-R7", "pyOpenSSL backend: the verify callback's verdict depends on OpenSSL's error code and the verify_mode setter installs it", "E6")
